@@ -18,6 +18,7 @@ CONSTANTS
   GaugeAtomic = FALSE
   NotfoundCountsTcp = TRUE
   ConnAtAccept = TRUE
+  FlushLossy = FALSE
 CONSTRAINT HW
 INVARIANTS TypeOK TraceAccounted TTimerExact TGrpcExact TTcpPartition TOneTimerEach TOneStatusEach
 POSTCONDITION Accepted
